@@ -389,6 +389,9 @@ Inductive sout := SHeader (h : header) | SBlob (b : bytes) | SClose | STaskError
 
 Variable req_loads : bytes -> rres.
 Variable store : bytes -> option bytes.
+(* blob_manager.completed_blob_hashes: what availability answers are taken from (a blob file adopted at start-up is
+   verified - store - without being in this index) *)
+Variable completed : bytes -> bool.
 
 Record server := mkS { s_buf : bytes; s_open : bool }.
 
@@ -396,7 +399,7 @@ Definition held (h : bytes) : bool := match store h with Some _ => true | None =
 
 (* handle_request, run to completion against a peer that reads everything *)
 Definition handle_request (q : request_msg) : list sout :=
-  let av := match q_avail q with Some l => Some (filter held l) | None => None end in
+  let av := match q_avail q with Some l => Some (filter completed l) | None => None end in
   let any := q_addr q || (match q_avail q with Some _ => true | None => false end) || q_price q in
   match q_blob q with
   | Some (BqHash h) =>
@@ -515,3 +518,14 @@ Definition blob_write (H : bytes -> bytes) (hash : bytes) (len : option Z) (ws :
   | Some w => finished_callback i (set_nth i (fst (writer_write H hash len w data)) ws)
   | None => ws
   end.
+
+(* ---------------------------------------------------------------- a memory-only node (save_blobs = False)
+   Its copy of a blob is a BlobBuffer: reading it (sendfile to a peer, or decrypting it) consumes it and clears
+   `verified`; the node then no longer holds the blob. *)
+Definition forget (store : bytes -> option bytes) (h : bytes) : bytes -> option bytes :=
+  fun x => if bytes_eqb x h then None else store x.
+
+Definition mem_handle_request (store : bytes -> option bytes) (completed : bytes -> bool) (q : request_msg)
+  : list sout * (bytes -> option bytes) :=
+  (handle_request store completed q,
+   match q_blob q with Some (BqHash h) => forget store h | _ => store end).
